@@ -13,14 +13,14 @@ MANIFEST = {
     "note": "The values the writer stores for a failed step are not judged (writer convention). Hook H1 must show at least one pipeflow per executed step, otherwise the run is inconclusive.",
     "technique": "runtime monitoring: per-step differential oracle between the real run_timeseries loop (observed through its OutputWriter and hook H1) and stand-alone real pipeflows",
 }
-RULE = ("seeded gas / water / heating nets with ConstControl profiles on sinks, sources and heat consumers over 4-8 steps, some steps made "
+RULE = ("seeded gas / water / heating nets with ConstControl profiles on sinks, sources, heat consumers and on the in_service flag of an island's own feeder (the supplied part changes between steps) over 4-8 steps, some steps made "
         "infeasible, executed in full, as random subsets and in shuffled order, with and without continue_on_divergence, hydraulics and "
         "sequential mode; non-trivial = series with >= 2 steps compared against stand-alone runs; distinct = case hash")
 ASSUMPTIONS = ["stand-alone reference = fresh build of the same spec + profile values of that step + the same options"]
 CONFIG = {"quick": {"shards": 8, "timeout_s": 600, "cases": 96},
           "thorough": {"shards": 16, "timeout_s": 3000, "cases": 2400}}
 REQUIRED_COUNTERS = ["steps_compared", "steps_failed_flag_checked", "series_with_infeasible_step", "series_continue_on_divergence",
-                     "series_raise_on_divergence_checked", "series_subset_or_shuffled", "series_thermal", "hook_pipeflow_events"]
+                     "series_raise_on_divergence_checked", "series_subset_or_shuffled", "series_thermal", "series_with_feeder_switching", "hook_pipeflow_events"]
 _EVENTS = []
 
 
@@ -40,8 +40,14 @@ def make(case):
     if case["kind"] == "heat":
         spec = netgen.gen_heating(rng, modes=["MF_DT", "MF_TR", "QE_MF"], source=str(rng.choice(["cpp", "grid"])), max_sections=2)
     else:
-        spec = netgen.gen_hydraulic(rng, fluid=str(rng.choice(["lgas", "water", "hydrogen"])), features=[("valves",), ("multi_grid", "mass_storage"),
-                                                                                                      ("pump",), ()][int(rng.integers(4))], max_sections=2)
+        feats = [("valves",), ("multi_grid", "mass_storage"), ("pump",), (), ("islands",), ("islands", "valves")][int(rng.integers(6))]
+        spec = netgen.gen_hydraulic(rng, fluid=str(rng.choice(["lgas", "water", "hydrogen"])), features=feats, max_sections=2)
+        if "islands" in feats:
+            # the island gets its own feeder, which a profile switches on and off: the supplied part changes from step to step
+            main = sum(1 for j in spec["junctions"] if not j["name"].startswith("j") or True)
+            isl = spec["junctions"][-1]["name"]
+            eg0 = [e for e in spec["elements"] if e["kind"] == "ext_grid"][0]
+            spec["elements"].append({"kind": "ext_grid", "name": "eg_island", "junction": isl, "p_bar": eg0["p_bar"] * 0.9, "t_k": 300.0, "in_service": True})
     nsteps = int(rng.integers(4, 9))
     profiles = {}
     for e in spec["elements"]:
@@ -49,6 +55,11 @@ def make(case):
             profiles[(netgen.table_of(e["kind"]), e["name"], "mdot_kg_per_s")] = [float(e["mdot_kg_per_s"] * rng.uniform(0.2, 1.6)) for _ in range(nsteps)]
         elif e["kind"] == "heat_consumer" and rng.random() < 0.7 and e.get("controlled_mdot_kg_per_s") is not None:
             profiles[("heat_consumer", e["name"], "controlled_mdot_kg_per_s")] = [float(e["controlled_mdot_kg_per_s"] * rng.uniform(0.4, 1.4)) for _ in range(nsteps)]
+    if any(e["name"] == "eg_island" for e in spec["elements"]):
+        flags = [bool(x) for x in rng.random(nsteps) < 0.5]
+        if all(flags) or not any(flags):
+            flags[int(rng.integers(nsteps))] = not flags[0]
+        profiles[("ext_grid", "eg_island", "in_service")] = flags
     infeasible = []
     sinks = [k for k in profiles if k[0] == "sink"]
     if sinks and rng.random() < 0.6:
@@ -113,6 +124,8 @@ def run_case(case, ctx):
         obs.count("series_subset_or_shuffled")
     if case["kind"] == "heat":
         obs.count("series_thermal")
+    if ("ext_grid", "eg_island", "in_service") in profiles:
+        obs.count("series_with_feeder_switching")
     params = ow.output.get("Parameters")
     failed_flags = {}
     if params is not None and "powerflow_failed" in params:
